@@ -247,6 +247,16 @@ func (f *fake) begin(q bool, sql string, args []any) (fail bool, effect bool) {
 
 var errInjected = errors.New("injected fault")
 
+// logFailed: a statement that failed without taking effect (used by the per-instance faults of concurrent runs)
+func (f *fake) logFailed(q bool, sql string, args []any) {
+	f.n++
+	f.total++
+	if f.mode == "" {
+		f.clock += f.tick
+	}
+	f.log = append(f.log, Call{Q: q, SQL: sql, Args: toArgs(args), OK: false})
+}
+
 func (f *fake) end() { f.clock += f.pending; f.pending = 0 }
 
 func (f *fake) Exec(ctx context.Context, query string, args ...any) error {
